@@ -183,6 +183,9 @@ class Inotify:
         # Stores the watch descriptor for a given path.
         self._wd_for_path: dict[bytes, int] = {}
         self._path_for_wd: dict[int, bytes] = {}
+        self._moved_from_events: dict[int, InotifyEvent] = {}
+        # Watch descriptors of watched directories whose IN_MOVED_FROM has not been matched yet.
+        self._moved_from_wds: dict[int, int] = {}
 
         self._path = path
         # Default to all events
@@ -203,9 +206,6 @@ class Inotify:
             self._closed = True
             self._close_resources()
             raise
-        self._moved_from_events: dict[int, InotifyEvent] = {}
-        # Watch descriptors of watched directories whose IN_MOVED_FROM has not been matched yet.
-        self._moved_from_wds: dict[int, int] = {}
 
     @property
     def event_mask(self) -> int:
@@ -485,6 +485,10 @@ class Inotify:
         old_path = self._path_for_wd.get(wd)
         if old_path is not None and old_path != path and self._wd_for_path.get(old_path) == wd:
             del self._wd_for_path[old_path]
+        # If it came back before the removal of its watches fell due (see remove_watches_below()),
+        # it keeps them.
+        for cookie in [c for c, moved_wd in self._moved_from_wds.items() if moved_wd == wd]:
+            del self._moved_from_wds[cookie]
         self._wd_for_path[path] = wd
         self._path_for_wd[wd] = path
         return wd
